@@ -362,6 +362,7 @@ def rule_locks(ctx, rep):
             rep.touch(f)
             ls = lockset.compute(f)
             bad = []
+            unser = []
             n = 0
             for i in f.all_insts():
                 e = mm.effect_of(i) if i.op in ("store", "rmw", "cmpxchg", "asm") else None
@@ -378,9 +379,15 @@ def rule_locks(ctx, rep):
                 n += 1
                 if i.id in ls and "@rcu_defer_mutex" not in ls[i.id]:
                     bad.append((tgt, i))
+                if nm in ("reg", "unreg") and tgt == "registry_defer list" and i.id in ls and "@defer_thread_mutex" not in ls[i.id]:
+                    unser.append(i)
             pat.require(n > 0, "%s: no guarded write found in %s" % (fl, f.name))
             rep.check(not bad, "C13.locks", "%s.%s" % (fl, nm), "%d writes to registry_defer / tail / last_head / last_fct_out all under rcu_defer_mutex" % n,
                       "write to %s without rcu_defer_mutex held" % (bad[0][0] if bad else ""), [b[1].where() for b in bad[:3]])
+            if nm in ("reg", "unreg"):
+                rep.check(not unser, "C13.locks", "%s.%s.membership-serialised" % (fl, nm), "registry_defer membership changes inside the defer_thread_mutex section that starts/stops the reclaimer",
+                          "registry_defer is modified outside defer_thread_mutex: the `was empty => start` / `is empty => stop` decisions are no longer atomic with the membership change - a "
+                          "register racing with the last unregister gets its freshly started reclaimer stopped (or none started): its deferred calls are never executed", [x.where() for x in unser[:3]])
             # pairing: nothing held at return
             held = [(r, ls[r.id]) for r in f.rets() if r.id in ls and ls[r.id]]
             rep.check(not held, "C13.locks", "%s.%s.released" % (fl, nm), "no lock held at return", "returns holding %s" % (sorted(held[0][1]) if held else ""), [h[0].where() for h in held[:2]])
